@@ -7,8 +7,9 @@ to the hand-written model definition the driver runs, for all arguments. So an e
 the Lean build (broken obligation) before any test input is needed.
 
 This module
-  * scopes the obligations per property: `for_property(pid)` returns the tie files / theorems of exactly the functions
-    the property's Lean model mentions (word test on the property's Lean closure, the defining file excluded);
+  * scopes the obligations per property: `for_property(pid)` (called by the engine before it reads them) narrows
+    `LEAN_TARGETS` / `THEOREMS` / `cases()` to the tie files / theorems / differential cases of exactly the functions the
+    property's Lean model mentions (word test on the property's Lean closure, the defining file excluded);
   * validates the translator itself (the trusted part) by a differential run: the extracted C++ text of each function
     is compiled stand-alone (g++, a tiny `extern "C"` shim with stub types, cached under /var/tmp/mahotas-verif) and
     compared with the generated Lean definition, evaluated by the native driver (op `cs`), on boundary-dense inputs.
@@ -39,6 +40,13 @@ FUNCS = {
                   words=['chebStep'], defined_in='C04.lean', targets=['t_abs']),
     'margin_of': dict(tie=T + 'MarginOf', theorems=['Mahotas.cscalar_margin_of_eq_model'],
                       words=['marginOf'], defined_in='C04.lean', targets=['margin_of']),
+    'convex': dict(tie=T + 'Convex', theorems=['Mahotas.cscalar_isLeft_eq_model', 'Mahotas.cscalar_forward_cmp_eq_model',
+                                               'Mahotas.cscalar_reverse_cmp_eq_model'],
+                   words=['isLeft', 'forwardCmp', 'reverseCmp'], defined_in='C15.lean', targets=['isLeft', 'forward_cmp', 'reverse_cmp']),
+    'at_flat': dict(tie=T + 'AtFlat', theorems=['Mahotas.cscalar_at_flat_eq_model'],
+                    words=['atFlat'], defined_in='C08.lean', targets=['at_flat']),
+    'pos_to_flat': dict(tie=T + 'PosToFlat', theorems=['Mahotas.cscalar_pos_to_flat_eq_model'],
+                        words=['posToFlat'], defined_in='C08.lean', targets=['pos_to_flat']),
 }
 THEOREMS = {f['tie']: list(f['theorems']) for f in FUNCS.values()}
 THEOREMS_BY_FUNCTION = {k: {f['tie']: list(f['theorems'])} for k, f in FUNCS.items()}
@@ -61,15 +69,23 @@ def functions_for(pid: str) -> list[str]:
         words[f.name] = words.get(f.name, set()) | set(re.findall(r'[A-Za-z_][\w]*', core.strip_comments(f.read_text())))
     out = []
     for k, fn in FUNCS.items():
-        if any(w in ws for name, ws in words.items() if name != fn['defined_in'] for w in fn['words']):
+        # mentions inside the defining file count only when that file is the property's own model
+        if any(w in ws for name, ws in words.items() if (name != fn['defined_in'] or name.startswith(pid)) for w in fn['words']):
             out.append(k)
     return out
 
 
+_CURRENT = None         # the property the module-level LEAN_TARGETS / THEOREMS / cases() are narrowed to (None = all functions)
+
+
 def for_property(pid: str) -> dict:
+    """called by the engine before it reads LEAN_TARGETS / THEOREMS / cases(): narrows them to the functions `pid` uses"""
+    global LEAN_TARGETS, THEOREMS, _CURRENT
     fs = functions_for(pid)
-    return dict(LEAN_TARGETS=[FUNCS[k]['tie'] for k in fs],
-                THEOREMS={FUNCS[k]['tie']: list(FUNCS[k]['theorems']) for k in fs})
+    _CURRENT = pid
+    LEAN_TARGETS = [FUNCS[k]['tie'] for k in fs]
+    THEOREMS = {FUNCS[k]['tie']: list(FUNCS[k]['theorems']) for k in fs}
+    return dict(LEAN_TARGETS=LEAN_TARGETS, THEOREMS=THEOREMS)
 
 
 # ----------------------------------------------------------------------------------------------
@@ -135,6 +151,35 @@ def _unit(srcs: dict) -> str:
         s.append('extern "C" long cs_margin_of(int nd, const long* dims, const long* pos) { numpy::position p; p.nd_ = nd; '
                  'numpy::array_base<int> r; r.nd = nd; for (int i = 0; i < nd; ++i) { p.position_[i] = pos[i]; r.dims[i] = dims[i]; } '
                  'return margin_of<int>(p, r); }')
+    if 'isLeft' in have or 'forward_cmp' in have:
+        s.append('namespace { struct Point { Point(int y_, int x_):y(y_), x(x_) { } long y, x; };')
+        for k in ('forward_cmp', 'reverse_cmp', 'isLeft'):
+            if k in have:
+                s.append(srcs[k]['text'])
+        s.append('}')
+        s.append('static Point cs_pt(long y, long x) { Point p(0, 0); p.y = y; p.x = x; return p; }')
+        if 'isLeft' in have:
+            s.append('extern "C" long cs_isLeft(long a, long b, long c, long d, long e, long f) { return (long)isLeft(cs_pt(a, b), cs_pt(c, d), cs_pt(e, f)); }')
+        for k in ('forward_cmp', 'reverse_cmp'):
+            if k in have:
+                s.append(f'extern "C" long cs_{k}(long a, long b, long c, long d) {{ return {k}(cs_pt(a, b), cs_pt(c, d)) ? 1 : 0; }}')
+    if 'at_flat' in have or 'pos_to_flat' in have:
+        s.append('template <typename BaseType> struct cs_array { bool is_carray_; BaseType* data_; int nd; npy_intp dims_[32]; npy_intp strides_[32];')
+        s.append('  typedef numpy::position position;')
+        s.append('  BaseType* data() { return data_; } int ndims() const { return nd; } npy_intp dim(int d) const { return dims_[d]; } '
+                 'npy_intp stride(int d) const { return strides_[d]; }')
+        for k in ('at_flat', 'pos_to_flat'):
+            if k in have:
+                s.append(srcs[k]['text'])
+        s.append('};')
+        s.append('static cs_array<char> cs_mk(int nd, const long* dims, const long* strides, long carray) { cs_array<char> A; A.is_carray_ = carray != 0; '
+                 'A.data_ = (char*)(1L << 40); A.nd = nd; for (int i = 0; i < nd; ++i) { A.dims_[i] = dims[i]; A.strides_[i] = strides ? strides[i] : 0; } return A; }')
+        if 'at_flat' in have:
+            s.append('extern "C" long cs_at_flat(long p, long carray, long data, int nd, const long* dims, const long* strides) { '
+                     'cs_array<char> A = cs_mk(nd, dims, strides, carray); return (&A.at_flat(p) - A.data_) + data; }')
+        if 'pos_to_flat' in have:
+            s.append('extern "C" long cs_pos_to_flat(int nd, const long* dims, const long* pos) { cs_array<char> A = cs_mk(nd, dims, 0, 0); '
+                     'numpy::position P; P.nd_ = nd; for (int i = 0; i < nd; ++i) P.position_[i] = pos[i]; return A.pos_to_flat(P); }')
     return '\n'.join(s) + '\n'
 
 
@@ -211,6 +256,29 @@ def _real_rows(case):
             A = (ctypes.c_long * max(1, n))(*dims)
             P = (ctypes.c_long * max(1, n))(*pos)
             out.append(str(f(n, A, P)))
+    elif fn in ('isLeft', 'forward_cmp', 'reverse_cmp'):
+        f = getattr(lib, 'cs_' + fn)
+        n = 6 if fn == 'isLeft' else 4
+        f.restype, f.argtypes = ctypes.c_long, [ctypes.c_long] * n
+        for row in case['rows']:
+            r = f(*row)
+            out.append(str(r) if fn == 'isLeft' else ('true' if r else 'false'))
+    elif fn == 'at_flat':
+        f = lib.cs_at_flat
+        f.restype = ctypes.c_long
+        for (p, carray, data), dims, strides in case['rows']:
+            n = len(dims)
+            A = (ctypes.c_long * max(1, n))(*dims)
+            S = (ctypes.c_long * max(1, n))(*strides)
+            out.append(str(f(ctypes.c_long(p), ctypes.c_long(carray), ctypes.c_long(data), n, A, S)))
+    elif fn == 'pos_to_flat':
+        f = lib.cs_pos_to_flat
+        f.restype = ctypes.c_long
+        for dims, pos in case['rows']:
+            n = len(dims)
+            A = (ctypes.c_long * max(1, n))(*dims)
+            P = (ctypes.c_long * max(1, n))(*pos)
+            out.append(str(f(n, A, P)))
     else:
         return None, f'no shim for {fn}'
     return out, None
@@ -220,8 +288,10 @@ def _lines(case):
     fn, dt = case['fn'], case.get('dt')
     lean = fn + '_bool' if (dt == 'b1' and fn in ('erode_sub', 'dilate_add')) else fn
     pre = f'cs fn={lean}' + (f' dt={dt}' if dt else '')
-    if fn == 'margin_of':
+    if fn in ('margin_of', 'pos_to_flat'):
         return [f'{pre} l0={core.fmt_ints(d)} l1={core.fmt_ints(p)}' for d, p in case['rows']]
+    if fn == 'at_flat':
+        return [f'{pre} a={core.fmt_ints(a)} l0={core.fmt_ints(d)} l1={core.fmt_ints(st)}' for a, d, st in case['rows']]
     return [f'{pre} a={core.fmt_ints(r)}' for r in case['rows']]
 
 
@@ -330,7 +400,47 @@ def _cases_margin(rng, tier):
     return [dict(fn='margin_of', rows=ch, src='random') for ch in _chunks(rows, 1000)]
 
 
+def _cases_convex(rng, tier):
+    n = dict(quick=1500, thorough=30000, search=10000)[tier]
+    def pt():
+        m = rng.choice([2, 3, 10, 2 ** 20])
+        return [rng.randint(-m, m), rng.randint(-m, m)]
+    out = [dict(fn='isLeft', rows=[pt() + pt() + pt() for _ in range(n)], src='random')]
+    for fn in ('forward_cmp', 'reverse_cmp'):
+        rows = [[a, b, c, d] for a in range(-1, 2) for b in range(-1, 2) for c in range(-1, 2) for d in range(-1, 2)]
+        rows += [pt() + pt() for _ in range(n // 3)]
+        out.append(dict(fn=fn, rows=rows, src='boundary'))
+    return out
+
+
+def _cases_at_flat(rng, tier):
+    rows = [[[0, 0, 7], [], []], [[0, 1, 7], [], []]]
+    for _ in range(dict(quick=1500, thorough=30000, search=10000)[tier]):
+        nd = rng.choice([1, 1, 2, 2, 2, 3, 3, 4, 5])
+        dims = [rng.choice([1, 2, 3, rng.randint(1, 9)]) for _ in range(nd)]
+        strides = [rng.randint(-60, 60) for _ in range(nd)]
+        size = 1
+        for d in dims:
+            size *= d
+        p = rng.choice([0, size - 1, rng.randrange(size), rng.randrange(2 * size + 1), size])
+        rows.append([[p, rng.choice([0, 0, 0, 1]), rng.randint(-1000, 1000)], dims, strides])
+    return [dict(fn='at_flat', rows=ch, src='random') for ch in _chunks(rows, 1000)]
+
+
+def _cases_pos_to_flat(rng, tier):
+    rows = [[[], []]]
+    for _ in range(dict(quick=1500, thorough=30000, search=10000)[tier]):
+        nd = rng.choice([1, 1, 2, 2, 2, 3, 3, 4, 5])
+        dims = [rng.choice([1, 2, 3, rng.randint(1, 9), rng.randint(1, 60)]) for _ in range(nd)]
+        pos = [rng.choice([0, d - 1, d // 2, rng.randint(-3, d + 2)]) for d in dims]
+        rows.append([dims, pos])
+    return [dict(fn='pos_to_flat', rows=ch, src='random') for ch in _chunks(rows, 1000)]
+
+
 GENERATORS = {
+    'convex': _cases_convex,
+    'at_flat': _cases_at_flat,
+    'pos_to_flat': _cases_pos_to_flat,
     'fix_offset': _cases_fix_offset,
     'erode_sub': lambda rng, tier: _cases_sat('erode_sub', rng, tier),
     'dilate_add': lambda rng, tier: _cases_sat('dilate_add', rng, tier),
@@ -352,7 +462,7 @@ def cases_for(pid, rng, tier):
 
 
 def cases(rng, tier):
-    return cases_for(None, rng, tier)
+    return cases_for(_CURRENT, rng, tier)
 
 
 def shrink(case):
